@@ -92,6 +92,8 @@ var faultSites = []struct {
 	{"node.patch", []string{"notfound", "err"}},
 	{"nc.patch", []string{"notfound", "err"}},
 	{"nc.status", []string{"notfound", "err"}},
+	// the NodePool read of updateNodePoolRegistrationHealth (only made for a NodeClaim that names a NodePool)
+	{"np.get", []string{"notfound", "err"}},
 }
 
 var createOutcomes = []string{"ice", "ncnr", "gen", "cerr"}
@@ -121,10 +123,22 @@ func genClaim(r *rand.Rand) ClaimIn {
 		}
 	}
 	c.Res = r.IntN(3)
-	c.Pool = r.IntN(2) == 0
+	// the NodePool: none named | there and owning | named but gone | re-created under the same name (other UID)
+	switch x := r.IntN(8); {
+	case x < 3:
+	case x < 6:
+		c.Pool = true
+	case x < 7:
+		c.Pool, c.Ps = true, "gone"
+	default:
+		c.Pool, c.Ps = true, "other"
+	}
 	c.Fin = r.IntN(5) == 0
 	return c
 }
+
+// dnsOff: values of the karpenter.sh/do-not-sync-taints label that do NOT opt out (only the exact string "true" does)
+var dnsOff = []string{"false", "", "True", "1"}
 
 func genNodeStep(r *rand.Rand, c ClaimIn) Step {
 	s := Step{K: "node", Taints: []Taint{}}
@@ -151,6 +165,10 @@ func genNodeStep(r *rand.Rand, c ClaimIn) Step {
 	s.Rs = readyVariant(r)
 	s.Res = r.IntN(10) < 4
 	s.Dns = r.IntN(10) < 1
+	if !s.Dns && r.IntN(10) < 2 {
+		v := pick(r, dnsOff)
+		s.Dl = &v
+	}
 	s.Reg = r.IntN(10) < 1
 	return s
 }
@@ -162,7 +180,7 @@ func genNodeStep(r *rand.Rand, c ClaimIn) Step {
 func genStray(r *rand.Rand, c ClaimIn) Step {
 	s := genNodeStep(r, c)
 	s.K = "stray"
-	s.Dns, s.Reg = false, false
+	s.Dns, s.Reg, s.Dl = false, false, nil
 	s.Pid = pick(r, []string{"", "", "x"})
 	if r.IntN(2) == 0 {
 		s.Rs, s.Res = "T", true
@@ -203,10 +221,93 @@ func genRec(r *rand.Rand, pFault float64) Step {
 }
 
 func genHistory(r *rand.Rand, t core.Tier) any {
-	if r.IntN(3) == 0 {
+	switch x := r.IntN(12); {
+	case x < 4:
 		return genChaotic(r, t)
+	case x < 6:
+		return genOverdue(r, t)
 	}
 	return genGuided(r, t)
+}
+
+// genOverdue: a NodeClaim that gets stuck — every launch attempt fails with a retryable error, or it launches and its
+// node never registers (never appears, or appears twice) — reconciled now and then (faults, lagging copies) until
+// just before / at / just after the launch (5m) or registration (15m) deadline, and a few times beyond it. The
+// NodePool it names is there, gone from the start, re-created, or deleted somewhere along the way.
+func genOverdue(r *rand.Rand, t core.Tier) any {
+	c := genClaim(r)
+	if r.IntN(2) == 0 { // lean towards NodeClaims that name a NodePool
+		c.Pool = true
+		c.Ps = pick(r, []string{"", "gone", "gone", "other"})
+	}
+	launchFails := r.IntN(2) == 0
+	edge := 900
+	if launchFails {
+		edge = 300
+	}
+	pFault := []float64{0, 0, 0.15, 0.4}[r.IntN(4)]
+	var steps []Step
+	now := 0
+	rec := func() Step {
+		s := genRec(r, pFault)
+		s.Create = ""
+		if s.Lag > 0 && r.IntN(2) == 0 {
+			s.Lag = 0
+		}
+		if launchFails {
+			s.Create = pick(r, []string{"gen", "gen", "cerr"})
+		}
+		now++
+		return s
+	}
+	poolDelAt := -1
+	if c.Pool && c.Ps == "" && r.IntN(3) == 0 {
+		poolDelAt = r.IntN(6)
+	}
+	n := 2 + r.IntN(5)
+	for i := 0; i < n; i++ {
+		if i == poolDelAt {
+			steps = append(steps, Step{K: "pooldel"})
+		}
+		steps = append(steps, rec())
+		if !launchFails && i == 0 && r.IntN(4) == 0 {
+			// the node shows up twice (Registered=False, MultipleNodesFound) or shows up and leaves again
+			steps = append(steps, genNodeStep(r, c))
+			if r.IntN(2) == 0 {
+				steps = append(steps, genNodeStep(r, c))
+			} else {
+				steps = append(steps, rec(), Step{K: "gone"})
+			}
+		}
+		if room := edge - 10 - now; room > 0 && r.IntN(3) > 0 {
+			secs := 1 + r.IntN(room)
+			now += secs
+			steps = append(steps, Step{K: "adv", Secs: secs})
+		}
+	}
+	if poolDelAt >= n {
+		steps = append(steps, Step{K: "pooldel"})
+	}
+	if target := edge + r.IntN(5) - 2; target > now {
+		steps = append(steps, Step{K: "adv", Secs: target - now})
+		now = target
+	}
+	// the reconciles around and past the deadline: mostly clean, sometimes with a fault at the NodePool read or the delete
+	for i, m := 0, 2+r.IntN(3); i < m; i++ {
+		s := rec()
+		if r.IntN(3) == 0 {
+			fs := pick(r, []struct{ site, class string }{{"np.get", "err"}, {"np.get", "notfound"}, {"nc.delete", "err"}, {"nc.delete", "notfound"}, {"nc.status", "err"}})
+			s.F = map[string]string{fs.site: fs.class}
+		}
+		steps = append(steps, s)
+		if r.IntN(2) == 0 {
+			secs := 1 + r.IntN(3)
+			now += secs
+			steps = append(steps, Step{K: "adv", Secs: secs})
+		}
+	}
+	steps = append(steps, Step{K: "rec"}, Step{K: "rec"})
+	return In{Claim: c, Steps: steps}
 }
 
 // genGuided follows the life of a NodeClaim (launch, node appears, the node gets ready piece by piece) so that
@@ -347,7 +448,11 @@ func genChaotic(r *rand.Rand, t core.Tier) any {
 		x := r.IntN(100)
 		switch {
 		case x < 2:
-			steps = append(steps, genStray(r, c))
+			if c.Pool && r.IntN(3) == 0 {
+				steps = append(steps, Step{K: "pooldel"})
+			} else {
+				steps = append(steps, genStray(r, c))
+			}
 		case x < 45:
 			steps = append(steps, genRec(r, pFault))
 			now++ // roughly: a reconcile that patches sleeps one second
@@ -452,6 +557,14 @@ func histLabels(raw json.RawMessage, implV any) []string {
 			set["claim-taint-with-value"] = true
 		}
 	}
+	poolState := "unnamed"
+	if in.Claim.labelled() {
+		poolState = "owning"
+		if in.Claim.Ps != "" {
+			poolState = in.Claim.Ps
+		}
+	}
+	set["nodepool="+poolState] = true
 	unregAt := make([]string, len(in.Steps)) // the form of the unregistered taint the latest Node joined with
 	lastUnreg := "absent"
 	for i, s := range in.Steps {
@@ -471,6 +584,14 @@ func histLabels(raw json.RawMessage, implV any) []string {
 			}
 			set["node-joins:unregistered="+unreg] = true
 			lastUnreg = unreg
+			switch {
+			case s.Dl != nil:
+				set[fmt.Sprintf("node-joins:do-not-sync-taints=%q", *s.Dl)] = true
+			case s.Dns:
+				set[`node-joins:do-not-sync-taints="true"`] = true
+			default:
+				set["node-joins:do-not-sync-taints:absent"] = true
+			}
 		}
 		unregAt[i] = lastUnreg
 		if s.K == "addt" && s.T != nil {
@@ -495,8 +616,29 @@ func histLabels(raw json.RawMessage, implV any) []string {
 				set["registered:node-joined-with-unregistered="+unregAt[i]] = true
 			}
 			prevR = s.Claim.R
+			capacity, deleted, poolAns := false, false, ""
 			for _, c := range s.Calls {
 				set["call:"+c] = true
+				capacity = capacity || c == "create:ice" || c == "create:ncnr"
+				deleted = deleted || strings.HasPrefix(c, "nc.delete:")
+				if strings.HasPrefix(c, "np.get:") {
+					poolAns = strings.TrimPrefix(c, "np.get:")
+				}
+			}
+			if s.Rec && !s.View.Del && !capacity && s.View.R != "T" {
+				// a liveness deadline had passed: what the NodePool read said, and whether the delete was issued
+				kind := "registration"
+				if s.View.L != "T" {
+					kind = "launch"
+				}
+				switch {
+				case deleted && poolAns == "":
+					set["timeout:"+kind+":deleted(no-nodepool-named)"] = true
+				case deleted:
+					set["timeout:"+kind+":deleted(nodepool-read="+poolAns+")"] = true
+				case poolAns != "" && poolAns != "ok" && poolAns != "notfound" && s.Claim.R != "T":
+					set["timeout:"+kind+":held-back(nodepool-read="+poolAns+")"] = true
+				}
 			}
 			for _, c := range s.Creates {
 				if c.Ok {
@@ -619,9 +761,11 @@ func histShrink(raw json.RawMessage) []any {
 			out = append(out, In{Claim: in.Claim, Steps: cp})
 		}
 	}
-	if len(in.Claim.Startup) > 0 || len(in.Claim.Taints) > 0 || in.Claim.Pool || in.Claim.Res != 0 {
+	if len(in.Claim.Startup) > 0 || len(in.Claim.Taints) > 0 || in.Claim.labelled() || in.Claim.Res != 0 {
 		c := in.Claim
 		switch {
+		case c.Ps != "":
+			c.Ps, c.Pool = "", true
 		case c.Pool:
 			c.Pool = false
 		case len(c.Taints) > 0:
@@ -783,6 +927,76 @@ func enumFaults(t core.Tier) []any {
 	return out
 }
 
+// ---------- c14.timeouts: the two liveness deadlines x the NodePool the NodeClaim names (exhaustive) ----------
+
+// enumTimeouts: a NodeClaim that does not get anywhere — launch fails with a retryable error on every attempt, or the
+// instance is created and no node (or two nodes) ever shows up — reconciled at the start, half way, and then around
+// the deadline (offsets -1, 0, +1 s and far beyond); the reconcile at the deadline meets one fault (or none) at the
+// NodePool read / the delete / the status patch and is retried. All of it for every state of the NodePool the
+// NodeClaim names: none named, there, gone from the start, re-created with another UID, deleted half way.
+func enumTimeouts(t core.Tier) []any {
+	type pool struct {
+		pool    bool
+		ps      string
+		delHalf bool
+	}
+	pools := []pool{{false, "", false}, {true, "", false}, {true, "gone", false}, {true, "other", false}, {true, "", true}}
+	modes := []string{"launch:gen", "launch:cerr", "noreg", "noreg:twins"}
+	faults := []faultKind{{"", ""}, {"np.get", "notfound"}, {"np.get", "err"}, {"nc.delete", "notfound"}, {"nc.delete", "err"}, {"nc.status", "err"}, {"nc.patch", "notfound"}}
+	offsets := []int{-1, 0, 1}
+	if t == core.Thorough {
+		offsets = []int{-2, -1, 0, 1, 2, 700}
+		faults = append(faults, faultKind{"np.get", "conflict"}, faultKind{"nc.status", "notfound"}, faultKind{"node.list", "err"})
+	}
+	var out []any
+	for _, pl := range pools {
+		for _, mode := range modes {
+			for _, off := range offsets {
+				for _, fk := range faults {
+					for _, fin := range []bool{false, true} {
+						if fin && !(fk.site == "" || fk.site == "np.get") {
+							continue
+						}
+						c := ClaimIn{Startup: []Taint{tStartA}, Taints: []Taint{}, Res: 0, Pool: pl.pool, Ps: pl.ps, Fin: fin}
+						create, edge := "", 900
+						if strings.HasPrefix(mode, "launch:") {
+							create, edge = strings.TrimPrefix(mode, "launch:"), 300
+						}
+						rec := func() Step { return Step{K: "rec", Create: create} }
+						// the clock: every reconcile that patches sleeps one second; the first one always does, later ones only when
+						// something changed. Count what is certain and let the offsets (and the sweep's random histories) cover the rest.
+						steps := []Step{rec()}
+						now := 1
+						if mode == "noreg:twins" {
+							steps = append(steps, Step{K: "node", Taints: []Taint{tUnreg}, Rs: "F"}, Step{K: "node", Taints: []Taint{tUnreg}, Rs: "F"}, rec())
+							now++ // Registered goes False: a patch
+						}
+						steps = append(steps, Step{K: "adv", Secs: edge/2 - now})
+						now = edge / 2
+						if pl.delHalf {
+							steps = append(steps, Step{K: "pooldel"})
+						}
+						steps = append(steps, rec())
+						if mode == "noreg:twins" {
+							// Registered=False since the second reconcile: the registration deadline counts from that transition (t=1)
+							steps = append(steps, Step{K: "adv", Secs: edge + 1 + off - now})
+						} else {
+							steps = append(steps, Step{K: "adv", Secs: edge + off - now})
+						}
+						at := rec()
+						if fk.site != "" {
+							at.F = map[string]string{fk.site: fk.class}
+						}
+						steps = append(steps, at, rec(), Step{K: "adv", Secs: 2}, rec(), Step{K: "rec"})
+						out = append(out, In{Claim: c, Steps: steps})
+					}
+				}
+			}
+		}
+	}
+	return out
+}
+
 // ---------- c14.gates: every way a fresh Node can look x the gates of Registered / Initialized (exhaustive) ----------
 
 // enumGates: launch; a Node appears in one of the enumerated shapes; two reconciles (registration, initialization);
@@ -795,11 +1009,16 @@ func enumGates(t core.Tier) []any {
 	ephs := [][]Taint{{}, {notReadyNX}, {{notReadyNX[0], notReadyNX[1], "", "3"}}, {cloud}}
 	// the NodeClaim's startup taint as the node carries it: not at all, as in the spec, with another value and a stamp
 	starts := [][]Taint{{}, {tStartA}, {{tStartA[0], tStartA[1], "pending", "1"}}}
-	type flags struct{ res, reg, dns bool }
-	fl := []flags{{true, false, false}}
+	// dl: the do-not-sync-taints label with a value that does not opt out ("-" = no such label)
+	type flags struct {
+		res, reg, dns bool
+		dl            string
+	}
+	fl := []flags{{true, false, false, "-"}, {true, false, true, "-"}, {true, false, false, "false"}}
 	claims := []ClaimIn{{Startup: []Taint{tStartA}, Taints: []Taint{tClaim}, Res: 1, Pool: true}}
 	if t == core.Thorough {
-		fl = []flags{{true, false, false}, {false, false, false}, {true, true, false}, {true, false, true}, {false, true, true}}
+		fl = []flags{{true, false, false, "-"}, {false, false, false, "-"}, {true, true, false, "-"}, {true, false, true, "-"}, {false, true, true, "-"},
+			{true, false, false, "false"}, {true, false, false, ""}, {false, true, false, "True"}}
 		claims = append(claims,
 			ClaimIn{Startup: []Taint{{tStartA[0], tStartA[1], "boot"}}, Taints: []Taint{{tClaim[0], tClaim[1], "gpu"}}, Res: 0, Pool: false},
 			ClaimIn{Startup: []Taint{}, Taints: []Taint{}, Res: 2, Pool: true, Fin: true})
@@ -812,6 +1031,10 @@ func enumGates(t core.Tier) []any {
 					for _, st := range starts {
 						for _, f := range fl {
 							node := Step{K: "node", Taints: []Taint{}, Rs: rs, Res: f.res, Reg: f.reg, Dns: f.dns}
+							if f.dl != "-" {
+								v := f.dl
+								node.Dl = &v
+							}
 							node.Taints = append(node.Taints, eph...)
 							if u != nil {
 								node.Taints = append(node.Taints, *u)
@@ -1019,13 +1242,26 @@ func Ops() []*core.Op {
 			Shrink:         histShrink,
 		},
 		{
+			Name:           "c14.timeouts",
+			Doc:            "the same controller on NodeClaims that get stuck: every launch attempt fails with a retryable error (generic, CreateError), or the instance is created and no node / two nodes show up; reconciled at the start, half way and at the launch (5m) / registration (15m) deadline -1, 0, +1 s (thorough: -2..+2 and far beyond), the reconcile at the deadline with one fault at the NodePool read / NodeClaim delete / status or metadata patch and its retries; for every state of the NodePool the NodeClaim's label names: none named, there and owning, gone from the start, re-created under the same name (other UID), deleted half way",
+			N:              func(core.Tier) int { return 0 },
+			Enum:           enumTimeouts,
+			Impl:           impl,
+			Rule:           "non-trivial = provider Create is reached",
+			ExhaustiveNote: "5 NodePool states x {launch fails gen / cerr, never registers, two nodes} x deadline offsets x {no fault, NodePool read notfound / err, delete notfound / err, status err, metadata notfound} x finalizer pre-set or not",
+			Nontrivial:     reachedCreate,
+			Labels:         histLabels,
+			Signature:      histSignature,
+			Shrink:         histShrink,
+		},
+		{
 			Name:           "c14.gates",
-			Doc:            "the same controller, fault free, on every shape of a fresh Node: unregistered taint {absent, bare, with value, with timeAdded, both} x Ready condition {True, False, Unknown, not posted} x kubelet / cloud-provider taint {none, bare, stamped, with value} x the NodeClaim's startup taint on the node {absent, as in the spec, other value + stamp} (thorough: x resource reported / registered label / do-not-sync-taints x 3 NodeClaim specs); reconciled, then every remaining blocker cleared one event at a time (Ready last) with a reconcile after each",
+			Doc:            "the same controller, fault free, on every shape of a fresh Node: unregistered taint {absent, bare, with value, with timeAdded, both} x Ready condition {True, False, Unknown, not posted} x kubelet / cloud-provider taint {none, bare, stamped, with value} x the NodeClaim's startup taint on the node {absent, as in the spec, other value + stamp} x the karpenter.sh/do-not-sync-taints label {absent, \"true\" (opts out), \"false\" (does not)} (thorough: x resource reported / registered label / do-not-sync-taints x 3 NodeClaim specs); reconciled, then every remaining blocker cleared one event at a time (Ready last) with a reconcile after each",
 			N:              func(core.Tier) int { return 0 },
 			Enum:           enumGates,
 			Impl:           impl,
 			Rule:           "non-trivial = provider Create is reached",
-			ExhaustiveNote: "5 unregistered-taint forms x 4 Ready states x 4 ephemeral-taint forms x 3 startup-taint forms (x 5 flag sets x 3 claims in the thorough tier)",
+			ExhaustiveNote: "5 unregistered-taint forms x 4 Ready states x 4 ephemeral-taint forms x 3 startup-taint forms x do-not-sync-taints {absent, \"true\", \"false\"} (x 8 flag sets incl. the label values \"\" and \"True\" x 3 claims in the thorough tier)",
 			Nontrivial:     reachedCreate,
 			Labels:         histLabels,
 			Signature:      histSignature,
